@@ -84,6 +84,12 @@ def Z1():
     return C("Z1", workers=2, second_pool=True, zipped=True, calls=[("imap", "list", 2, 1), ("imap", "list", 2, 1)])
 
 
+def V1():
+    # items 0 / None / int: a pool must treat a falsy item and a None item (its own stop token) like any other;
+    # chunk size 2 puts a None at the end of a chunk and at the end of the data, the second call has one-item chunks
+    return C("V1", workers=2, calls=[("imap", "vals", 4, 2), ("imap", "vals", 2, 1)])
+
+
 def P11():
     # both generators are created up front and then consumed one after the other
     return C("P11", workers=1, precreate=True, calls=[("imap_unordered", "list", 2, 1), ("imap", "list", 1, 1)])
